@@ -129,6 +129,13 @@ def run(ctx):
     for _ in range(ctx.n(250, 6000)):
         S = int(r.integers(1, 8))
         p, q = rand_partition(r, S), rand_partition(r, S)
+        if r.random() < 0.08:
+            # many events on both sides (two-digit event numbers), declared in different orders
+            S = int(r.integers(11, 15))
+            p = [[int(v)] for v in r.permutation(S)]; q = [[int(v)] for v in r.permutation(S)]
+            if r.random() < 0.5:
+                a_, b_ = (int(v) for v in r.choice(S, 2, replace=False))
+                q = [e for e in q if e != [a_] and e != [b_]] + [sorted([a_, b_])]
         code = {"events": [list(map(int, e)) for e in comb_set(p, q)]}
         reqs.append({"op": "comb_set", "p": p, "q": q}); codes.append(code); cases.append({"p": p, "q": q}); comps.append('comb_set')
         ctx.count('comb:groups=%d' % min(len(code['events']), 4))
@@ -216,6 +223,7 @@ def real_rule_var(r):
     order = []
     problems = []
     vt_letters = []
+    held_slices = {}          # decision number -> slice objects that were used for earlier adapt() calls
     for k in range(nd):
         size = int(r.integers(1, 4))
         vt = 'C' if r.random() < 0.7 else ''.join(str(c) for c in r.choice(['C', 'C', 'B', 'I'], size))
@@ -237,6 +245,8 @@ def real_rule_var(r):
                 plan.append((di, ri))
             early = bool(r.random() < 0.5)        # slice objects created BEFORE any adapt() call on the array
             objs = [(x if (len(di) == size and r.random() < 0.5) else x[di]) for di, ri in plan] if early else None
+            if early:
+                held_slices.setdefault(k, []).extend((obj, di) for obj, (di, ri) in zip(objs, plan) if obj is not x)
             for i_, (di, ri) in enumerate(plan):
                 target = objs[i_] if early else (x if (len(di) == size and r.random() < 0.5) else x[di])
                 has_int = any(letters[i] in 'BI' for i in di)
@@ -272,6 +282,17 @@ def real_rule_var(r):
                     # a legal, not yet declared dependency cannot be declared at all
                     problems.append({"what": "legal adapt() on a later random variable raises", "error": type(e).__name__,
                                      "entries": di, "components": ri})
+            # ... and then once more through a slice object that was already used before the new random variable existed
+            if held_slices.get(k) and r.random() < 0.7:
+                obj, dh = held_slices[k][int(r.integers(len(held_slices[k])))]
+                rh = sorted(set(int(v) for v in r.choice(late, int(r.integers(1, late + 1)), replace=False)))
+                if not late_masks[k][np.ix_(dh, rh)].any() and not any(lk[i] in 'BI' for i in dh):
+                    try:
+                        obj.adapt(u[rh])
+                        late_masks[k][np.ix_(dh, rh)] = 1
+                    except Exception as e:
+                        problems.append({"what": "legal adapt() through an earlier slice object raises", "error": type(e).__name__,
+                                         "entries": dh, "components": rh})
     nz_decl = nz
     nz = nz + late
     with C.quiet():
